@@ -54,6 +54,31 @@ func main() {
 			}
 		}
 	}
+	// Close of the Pub/Sub (no context cancel) while senders are blocked in the hand-over to a consumer that does not read:
+	// unbuffered and buffered channels, live publishes and the persistent replay, blocking publishers waiting for those acks
+	for _, cfg := range []struct{ p, b bool }{{false, false}, {true, false}, {false, true}, {true, true}} {
+		for _, buf := range []int{0, 1} {
+			for _, phase := range []int{0, 1} {
+				if phase == 1 && !cfg.p {
+					continue // a late subscription gets something only from the persistent replay
+				}
+				sc := gc.Scenario{Buf: buf, Persistent: cfg.p, Blocking: cfg.b, Seed: rng.Next(), CloseDuring: true, CloseAfterUs: 3000,
+					SecondClose: buf == 1, LateOps: true,
+					Subs: []gc.SubSpec{
+						{Topic: 0, Phase: phase, AfterPubs: 2, CancelAtRecv: -1, NestedTopic: -1, NoRead: true},
+						{Topic: 0, Phase: 0, CancelAtRecv: -1, NestedTopic: -1}},
+					Pubs: []gc.PubSpec{{Topic: 0, Calls: 3, Batch: 1}, {Topic: 1, Calls: 1, Batch: 1}}}
+				if cfg.b && phase == 0 {
+					// … and a Subscribe in flight: it waits for the write lock, which the blocked Publish keeps from it until Close
+					sc.Subs = append(sc.Subs, gc.SubSpec{Topic: 0, Phase: 1, AfterPubs: 1, CancelAtRecv: -1, NestedTopic: -1})
+				}
+				if !emit(sc) {
+					return
+				}
+				out.Count("close_with_blocked_handover")
+			}
+		}
+	}
 	cfgs := []struct{ p, b bool }{{false, false}, {true, false}, {false, true}}
 	if a.Thorough() {
 		cfgs = append(cfgs, struct{ p, b bool }{true, true})
